@@ -110,6 +110,7 @@ func c07Gen(r *zsim.Run) c07Scenario {
 
 type c07Cancel struct {
 	inv, ret int64
+	invAt    time.Duration // virtual time of the invocation
 	err      error
 }
 
@@ -119,24 +120,25 @@ type c07Panic struct {
 }
 
 type c07State struct {
-	r         *zsim.Run
-	sc        c07Scenario
-	mapped    map[int]int
-	written   map[int]int
-	reduced   map[int]int
-	conc      int
-	maxConc   int
-	cancels   []*c07Cancel
-	panics    []c07Panic
-	redInv    int64 // reducer's decisive action: first Write invoked / returned without write
-	redInvAt  time.Duration
-	redWrote  int
-	redValue  int
-	redAll    bool // the reducer saw its pipe closed
-	genDone   bool
-	running   int // user callbacks still executing
-	ctxDoneAt time.Duration
-	faulted   bool
+	r          *zsim.Run
+	sc         c07Scenario
+	mapped     map[int]int
+	written    map[int]int
+	reduced    map[int]int
+	conc       int
+	maxConc    int
+	cancels    []*c07Cancel
+	panics     []c07Panic
+	redInv     int64 // reducer's decisive action: first Write invoked / returned without write
+	redInvAt   time.Duration
+	redWrote   int
+	redValue   int
+	redAll     bool // the reducer saw its pipe closed
+	genDone    bool
+	running    int // user callbacks still executing
+	ctxDoneAt  time.Duration
+	ctxDoneSeq int64 // event sequence number right after the context was cancelled (0: not yet / deadline context)
+	faulted    bool
 }
 
 var (
@@ -153,7 +155,7 @@ func (st *c07State) cancelWith(cancel func(error), err error) {
 		cancel(err)
 		return
 	}
-	c := &c07Cancel{inv: st.r.Seq(), err: err}
+	c := &c07Cancel{inv: st.r.Seq(), invAt: st.r.Now(), err: err}
 	st.cancels = append(st.cancels, c)
 	st.faulted = true
 	st.r.FaultFired("cancel")
@@ -312,6 +314,7 @@ func c07Run(r *zsim.Run) {
 				st.ctxDoneAt = r.Now()
 				r.Logf("ctx cancelled")
 				cf()
+				st.ctxDoneSeq = r.Seq()
 			})
 		}
 		st.faulted = true
@@ -477,17 +480,31 @@ func c07Check(r *zsim.Run, st *c07State, val any, err error, panicked any, didPa
 	var normal outcome
 	switch sc.entry {
 	case 0, 1, 2:
-		if st.redInv != 0 && st.redInv < retSeq && st.redInv < minCancelRet && (st.ctxDoneAt < 0 || st.redInvAt <= st.ctxDoneAt) {
+		// a cancel records its error before anything that takes (virtual) time: a reducer that starts to write at a
+		// later clock reading writes after the error was recorded, and the error wins over its value (without
+		// stalls; a stalled canceller may be held before it records anything)
+		cancelledEarlier := false
+		for _, c := range st.cancels {
+			if c.invAt < st.redInvAt && r.StallOdds == 0 && r.StallSites == 0 && sc.entry != 4 {
+				cancelledEarlier = true
+			}
+		}
+		// a reducer that starts to write when the context is already done has its value dropped by the writer
+		ctxDoneBeforeWrite := sc.ctxKind == 2 && sc.ctxAt == 0 && sc.entry <= 3 || st.ctxDoneSeq != 0 && st.ctxDoneSeq < st.redInv
+		if st.redInv != 0 && st.redInv < retSeq && st.redInv < minCancelRet && !ctxDoneBeforeWrite && (st.ctxDoneAt < 0 || st.redInvAt <= st.ctxDoneAt) {
 			normalAllowed = true
 			switch {
 			case sc.redWrites >= 2 && sc.entry != 1 && sc.redMode < 2:
 				normal = outcome{"panic", "多次写入聚合器"}
-				if !clean && st.redWrote >= 1 {
+				if !clean && st.redWrote >= 1 && !cancelledEarlier {
 					// the second write may have been dropped by a concurrent abort
 					allowed = append(allowed, outcome{"val", fmt.Sprint(st.redValue)})
 				}
 			case st.redWrote == 1:
 				normal = outcome{"val", fmt.Sprint(st.redValue)}
+				if cancelledEarlier {
+					normalAllowed = false // the recorded error wins over the value
+				}
 			case sc.entry == 1:
 				normal = outcome{"err", "<nil>"}
 			default:
